@@ -13,7 +13,10 @@ package verifrt
 import (
 	"encoding/json"
 	"fmt"
+	"math/rand"
 	"os"
+	"runtime"
+	"time"
 )
 
 type input struct {
@@ -185,8 +188,17 @@ func Concretize(v, lo, hi int) int {
 // Symbolic reports whether the harness runs under the symbolic executor.
 func Symbolic() bool { return false }
 
-// Yield is a scheduling point for the cooperative scheduler.
-func Yield() {}
+// Yield is a scheduling point for the cooperative scheduler; natively it
+// invites the Go scheduler to run another goroutine.
+func Yield() {
+	// perturb the native schedule a little so that repeated replays of a
+	// schedule-dependent counterexample see different interleavings
+	if rand.Intn(3) == 0 {
+		time.Sleep(time.Duration(rand.Intn(40)) * time.Microsecond)
+		return
+	}
+	runtime.Gosched()
+}
 
 // Main is the entry point of the generated native replay binary:
 // <bin> <harness> ; the replay file is named by $VERIFRT_REPLAY.
